@@ -309,6 +309,105 @@ def explicit_paths(ctx, cls, W, DW, data, depth):
                                                        'schedules': len(inputs) ** depth, 'clock_edges': count[0]})
 
 
+# ------------------------------------------------------------------ compositions of the two adapters
+LINK_INPUTS = '(ap_start_p, ap_start_c, ap_reset, ap_done, load_outs, x, dut_en, cycles_of_this_clk_call); x = reg_in, or the data input of the gated register that drives reg_in'
+LINK_OUTPUTS = '[tvalid, tdata, tlast, tkeep, sent, p_active, q, loaded, c_active, tready, reg_in]'
+
+def run_link(blk, sched):
+    """drive a Link; the oracle is the composition of the property's two reference machines stepped once per elapsed cycle
+    (and, on single-step schedules, the two protocol monitors on each adapter's side of the stream).
+    returns (observations, expanded per-cycle inputs for Coq, observation indices, violation | None)"""
+    ref = B.LinkRef(blk.W, blk.Q, blk.DW, blk.source != 'poke')
+    single = all(i[7] == 1 for i in sched)
+    ma, mb = (B.A2RMonitor(blk.Q), B.R2AMonitor(blk.W, blk.DW)) if single else (None, None)
+    tr, idx, viol, prev = [], [], None, blk.obs()
+    cyc = 0
+    for k, i in enumerate(sched):
+        new = blk.step(i[:7], i[7])
+        for _ in range(i[7]): ref.cycle(i[:7])
+        cyc += i[7]; idx.append(cyc - 1)
+        exp = ref.obs()
+        msg = None
+        if new != exp:
+            names = LINK_OUTPUTS.strip('[]').split(', ')
+            bad = [n for n, a, b in zip(names, new, exp) if a != b]
+            msg = 'after clk(%d): %s differ from the composition of the reference machines: block %s, expected %s' % (i[7], bad, new, exp)
+            if new[4] == 1 and exp[7] == 1 and new[7] == 0: msg = 'BEAT LOST: producer reports sent, consumer has nothing loaded; ' + msg
+            if new[1] != exp[1]: msg = 'BEAT CORRUPTED: tdata offered %d, reg_in at the load pulse was %d; ' % (new[1], exp[1]) + msg
+        elif single:
+            sp, sc, rs, dn, lo, x, en = i[:7]
+            m1 = ma.check([prev[6], prev[7], prev[8], prev[9]], (sc, rs, dn, prev[0], prev[1]), [new[6], new[7], new[8], new[9]])
+            shown = prev[10] if blk.source != 'poke' else x & ((1 << blk.W) - 1)      # what reg_in carries during this cycle
+            m2, _outside = mb.check(prev[:6], (sp, rs, dn, lo, prev[9], shown), new[:6])
+            msg = ('consumer side: ' + m1) if m1 else ('producer side: ' + m2) if m2 else None
+        if msg and viol is None:
+            viol = {'what': '%s (order %s, reg_in %s) violates C16: %s' % (blk.name, blk.order, blk.source, msg), 'block': 'Link', 'W': blk.W, 'Q': blk.Q, 'DW': blk.DW,
+                    'order': blk.order, 'source': blk.source, 'inputs': LINK_INPUTS, 'outputs': LINK_OUTPUTS,
+                    'schedule': [list(x) for x in sched[:k + 1]], 'call': k, 'outputs_before': prev, 'outputs_after': new, 'expected': exp}
+        tr.append(new); prev = new
+    per_cycle = []
+    for i in sched: per_cycle += [i] * i[7]
+    coq_ins = [(i[0], i[1], i[2], i[3], i[4], r) for i, r in zip(per_cycle, ref.trace_regin)]
+    return tr, coq_ins, idx, viol
+
+
+def link_sweep(ctx, n_sched, n_calls, with_coq, n_coq):
+    rng = random.Random(ctx.seed * 104729 + 61)
+    cases, dumps = [], []
+    kinds = ['late_consumer', 'random', 'streaming']
+    k = 0
+    for rep in range(n_sched):
+        for order in ('pc', 'cp'):
+            for source in ('poke', 'gated_first', 'gated_last'):
+                W, DW = WIDTHS[k % len(WIDTHS)]
+                Q = rng.choice([W, max(1, W - 2), min(DW, W + 3), DW])
+                multi = (k // 2) % 2 == 1
+                kind = kinds[k % len(kinds)]
+                blk = build_block(ctx, B.Link, W, Q, DW, order, source)
+                dp = blk.dump() if with_coq and len(dumps) < (3 if ctx.quick else 12) and k % 5 == 0 else None
+                iv = dp.values() if dp else None
+                full = []
+                if dp:
+                    orig = blk.step
+                    def step(i, n=1, orig=orig, dp=dp, full=full):
+                        o = orig(i, n); full.append(dp.values()); return o
+                    blk.step = step
+                sched = B.link_schedule(rng, W, rng.randint(n_calls // 2, n_calls), kind, multi)
+                tr, coq_ins, idx, viol = run_link(blk, sched)
+                ctx.count(hash(('Link', W, Q, DW, order, source, kind, multi, tuple(sched))), n=sum(i[7] for i in sched))
+                if viol:
+                    ctx.violation(viol); raise Stop()
+                if k < 2: ctx.sample({'block': 'Link', 'order': order, 'source': source, 'first_calls': [list(x) for x in sched[:4]], 'outputs': tr[:4]})
+                if len(cases) < n_coq: cases.append((W, Q, DW, order, source, sched, tr, coq_ins, idx))
+                if dp:
+                    ids = [dp.wid[id(w)] for w in blk.inw]
+                    dumps.append((dp, [([(wid, v) for wid, v in zip(ids, i[:7])], i[7]) for i in sched], iv, full, order, source, sched))
+                k += 1
+    ctx.notes['link_schedules'] = {'run': k, 'in_Coq': len(cases) if with_coq else 0, 'netlists_under_kernel_model': len(dumps)}
+    if not with_coq: return
+    items = []
+    for j, (W, Q, DW, order, source, sched, tr, coq_ins, idx) in enumerate(cases):
+        items.append(('l%d' % j, 'trace_diff 0 %s (pick (link_trace %d %d %d %d [%s]) [] [%s])' % (
+            trace_term([o[:10] for o in tr]), W, Q, DW, DW // 8, '; '.join(tup(i) for i in coq_ins), '; '.join('%d%%nat' % a for a in idx))))
+    res = common.coq_eval('C16_link', PRELUDE, items) if items else {}
+    for j, (W, Q, DW, order, source, sched, tr, coq_ins, idx) in enumerate(cases):
+        d = res['l%d' % j]
+        if d is not None:
+            call, impl_o, model_o = d[1]
+            ctx.violation({'what': 'Reg2Axi->Axi2Reg (order %s, reg_in %s): real composition and the composed gate-level models (Model/Axi.v link_step) disagree' % (order, source),
+                           'block': 'Link', 'W': W, 'Q': Q, 'DW': DW, 'order': order, 'source': source, 'inputs': LINK_INPUTS, 'outputs': LINK_OUTPUTS,
+                           'schedule': [list(x) for x in sched[:call + 1]], 'call': call, 'impl_outputs': impl_o, 'model_outputs': model_o}, found_input=False)
+            raise Stop()
+    if dumps:
+        diffs = netlist.compare('C16_kernel_link', [(dp, steps, iv, full) for dp, steps, iv, full, *_ in dumps])
+        for (dp, steps, iv, full, order, source, sched), df in zip(dumps, diffs):
+            if df is not None:
+                ctx.violation({'what': 'Reg2Axi->Axi2Reg (order %s, reg_in %s): kernel model of the dumped netlist and the real simulator disagree (correspondence broken)' % (order, source),
+                               'diff(step,(wire,impl,model))': df, 'schedule': [list(x) for x in sched]}, found_input=False)
+                raise Stop()
+    ctx.log('link sweep compared in Coq')
+
+
 # ------------------------------------------------------------------ control FSMs (extension)
 def fsm_sweep(ctx, n_sched, with_coq):
     rng = random.Random(ctx.seed * 31 + 5)
@@ -464,6 +563,7 @@ def run(ctx):
         if not q:
             infos.append(closure(ctx, B.A2R, 3, 8, tuple(range(8)) + (8, 255), 64))
         if model_ok: closure_coq(ctx, infos)
+        link_sweep(ctx, 8 if q else 60, 24 if q else 40, with_coq=model_ok, n_coq=18 if q else 60)
         fsm_sweep(ctx, 6 if q else 60, with_coq=model_ok)
         if not tie_ok:
             # proof or model no longer checks and the sweeps above found no failing schedule: widen once, then report
@@ -485,6 +585,12 @@ def replay(rp):
         def known_finding(self, fid, text): print('KNOWN-FINDING: property=C16 %s' % text)
     name = rp.get('block')
     sched = [tuple(x) for x in rp.get('schedule', [])]
+    if name == 'Link' and sched:
+        blk = B.Link(rp['W'], rp['Q'], rp['DW'], rp['order'], rp['source'])
+        tr, _, _, viol = run_link(blk, sched)
+        print('inputs %s\noutputs %s' % (LINK_INPUTS, LINK_OUTPUTS))
+        for i, o in zip(sched, tr): print('  in %s -> out %s' % (list(i), o))
+        print(('REPRODUCED: ' + viol['what']) if viol else 'not reproduced'); return 1 if viol else 0
     if name not in ('Axi2Reg', 'Reg2Axi', 'Axi2Clk') or not sched:
         print(json.dumps(rp, indent=1)[:3000]); return 0
     opts = rp.get('interface_options') or {}
